@@ -12,7 +12,8 @@
 //        comparator (operator< of the element = key<).  Answer: `key:tag,...` after the call.
 //        Direct oracle: the answer is a permutation of the input, in non-decreasing order.
 //   zo <family> <direct|dispatch> <n>
-//        all 2^n zero-one inputs through the real code; answer `fails=<#unsorted outputs>
+//        all 2^n zero-one inputs through the real code (input m puts bit n-1-k of m on position k,
+//        the numbering of the model's `wiresRec`); answer `fails=<#unsorted outputs>
 //        sig=<fnv64 of the bit-parallel output words>` (compared with the model's
 //        bit-parallel evaluation, i.e. with the object of the `decide +kernel` theorems).
 #include "c15_entry.hpp"
@@ -72,12 +73,12 @@ static int zofails(int maxper) {
                 int found = 0;
                 std::vector<Elem> v(n);
                 for (unsigned long m = 0; m < (1ul << n) && found < maxper; ++m) {
-                    for (int k = 0; k < n; ++k) { v[k].key = (m >> k) & 1; v[k].tag = k; }
+                    for (int k = 0; k < n; ++k) { v[k].key = (m >> (n - 1 - k)) & 1; v[k].tag = k; }
                     c15::call(fam, entry, n, v.data(), CmpLt());
                     if (!sorted01(v)) {
                         ++found;
                         std::cout << "run " << c15::family_name[fam] << ' ' << c15::entry_name[entry] << ' ' << n << " lt ";
-                        for (int k = 0; k < n; ++k) std::cout << (k ? "," : "") << ((m >> k) & 1);
+                        for (int k = 0; k < n; ++k) std::cout << (k ? "," : "") << ((m >> (n - 1 - k)) & 1);
                         std::cout << '\n';
                     }
                 }
@@ -137,7 +138,7 @@ int main(int argc, char** argv) {
             unsigned long fails = 0;
             std::vector<Elem> v(n);
             for (unsigned long m = 0; m < (1ul << n); ++m) {
-                for (int k = 0; k < n; ++k) { v[k].key = (m >> k) & 1; v[k].tag = k; }
+                for (int k = 0; k < n; ++k) { v[k].key = (m >> (n - 1 - k)) & 1; v[k].tag = k; }
                 c15::call(fam, entry, n, v.data(), CmpLt());
                 if (!sorted01(v)) ++fails;
                 for (int k = 0; k < n; ++k)
